@@ -52,6 +52,22 @@ def f_meas(P, q):
     ops.Xgate(q[0].par) | q[1]
 
 
+def f_meas2(P, q):
+    """one mode measured twice in one segment, with different outcomes"""
+    ops.Squeezed(0.3, 0.0) | q[0]
+    ops.MeasureHomodyne(0.0, select=0.2) | q[0]
+    ops.Coherent(0.1, 0.0) | q[0]
+    ops.MeasureHomodyne(0.0, select=-0.4) | q[0]
+
+
+def f_ffprev(P, q):
+    """feed-forward of the latest outcome of mode 0, measured in this or an earlier segment"""
+    ops.Xgate(q[0].par) | q[1]
+
+
+MEASURING = ("meas", "meas2")
+
+
 def f_newdel(P, q):
     (r,) = ops.New(1)
     ops.Squeezed(0.2, 0.1) | r
@@ -77,7 +93,7 @@ def f_raise2(P, q):
     ops.Dgate(0.3 + 0.1j, 0.0).H | q[1]
 
 
-FRAGS = {"prep": f_prep, "dagger": f_dagger, "free": f_free, "meas": f_meas, "newdel": f_newdel, "loss": f_loss}
+FRAGS = {"prep": f_prep, "dagger": f_dagger, "free": f_free, "meas": f_meas, "newdel": f_newdel, "loss": f_loss, "meas2": f_meas2, "ffprev": f_ffprev}
 BAD = {"raise-unmeasured": f_raise, "raise-complex": f_raise2}
 
 
@@ -295,6 +311,15 @@ def expand(task):
             w = rebuild(backend, hist)
             nfr = len(w.frs) + (2 if ev[0] == "runlist" else 1 if ev[0] in ("run", "runopt", "compilerun") else 0)
             if nfr > maxfr:
+                continue
+            # feed-forward of an earlier outcome is only defined once mode 0 has been measured
+            before = list(w.frs)
+            skip = False
+            for f in ev[1:]:
+                if f == "ffprev" and not any(x in MEASURING for x in before):
+                    skip = True
+                before.append(f)
+            if skip:
                 continue
             res.n += 1
             case = {"backend": backend, "hist": [list(e) for e in hist], "event": list(ev)}
